@@ -21,6 +21,10 @@ func runRCDirect(p *core.Program, r *core.Report) {
 		return
 	}
 	isRC := func(v ssa.Value) bool { return core.IsNamed(v.Type(), pkgEval, "restoreCollector") }
+	// A collector a function "received": its own collector parameter, or a
+	// collector-typed field of a struct it was handed (the stores into such
+	// fields are sinks of this rule themselves, so a field only ever holds a
+	// received collector).
 	n := 0
 	for _, fn := range p.FnsInPkg(pkgEval) {
 		if fn.Parent() != nil {
@@ -32,10 +36,64 @@ func runRCDirect(p *core.Program, r *core.Report) {
 				prm = q
 			}
 		}
-		if prm == nil {
+		var received func(a ssa.Value, depth int) bool
+		received = func(a ssa.Value, depth int) bool {
+			if depth > 4 {
+				return false
+			}
+			if prm != nil && a == ssa.Value(prm) {
+				return true
+			}
+			switch x := a.(type) {
+			case *ssa.Field:
+				return isRC(x)
+			case *ssa.ChangeType:
+				return received(x.X, depth+1)
+			}
+			if addr, ok := core.IsLoad(a); ok {
+				switch cell := addr.(type) {
+				case *ssa.Alloc:
+					if w := singleStoreOf(cell); w != nil {
+						return received(w, depth+1)
+					}
+				case *ssa.FieldAddr:
+					return isRC(a)
+				}
+			}
+			return false
+		}
+		readsField := false
+		core.Instrs(fn, func(ins ssa.Instruction) {
+			if v, ok := ins.(ssa.Value); ok && isRC(v) {
+				switch x := ins.(type) {
+				case *ssa.Field:
+					readsField = true
+				case *ssa.UnOp:
+					if _, ok := x.X.(*ssa.FieldAddr); ok {
+						readsField = true
+					}
+				}
+			}
+		})
+		if prm == nil && !readsField {
 			continue
 		}
+		const bad = "the collector handed to the code that sets the variables is not the one this function received (it was replaced or wrapped): restore functions are no longer registered the moment a variable is set, so an early return between the set and the late registration leaves variables with their temporary values"
 		core.Instrs(fn, func(ins ssa.Instruction) {
+			if st, ok := ins.(*ssa.Store); ok && isRC(st.Val) {
+				fa, ok := st.Addr.(*ssa.FieldAddr)
+				if !ok {
+					return
+				}
+				n++
+				construct := core.FnKey(fn) + " stores its collector in field " + fieldNameOf(fa) + " unchanged"
+				if received(st.Val, 0) {
+					r.OK(rule, construct, p.InsPos(ins), "the stored value is the collector this function received")
+				} else {
+					r.Bad(rule, construct, p.InsPos(ins), bad)
+				}
+				return
+			}
 			c, ok := ins.(*ssa.Call)
 			if !ok {
 				return
@@ -50,20 +108,10 @@ func runRCDirect(p *core.Program, r *core.Report) {
 				}
 				n++
 				construct := core.FnKey(fn) + " passes its collector to " + callee.Name() + " unchanged"
-				direct := a == ssa.Value(prm)
-				if !direct {
-					if addr, ok := core.IsLoad(a); ok {
-						if cell, ok := addr.(*ssa.Alloc); ok {
-							if w := singleStoreOf(cell); w == ssa.Value(prm) {
-								direct = true
-							}
-						}
-					}
-				}
-				if direct {
-					r.OK(rule, construct, p.InsPos(ins), "the argument is the function's own collector parameter")
+				if received(a, 0) {
+					r.OK(rule, construct, p.InsPos(ins), "the argument is the collector this function received (its parameter, or the collector field of the struct it was handed)")
 				} else {
-					r.Bad(rule, construct, p.InsPos(ins), "the collector handed to the code that sets the variables is not the one this function received (it was replaced or wrapped): restore functions are no longer registered the moment a variable is set, so an early return between the set and the late registration leaves variables with their temporary values")
+					r.Bad(rule, construct, p.InsPos(ins), bad)
 				}
 			}
 		})
